@@ -221,7 +221,8 @@ class PIT(DNAS):
                 if isinstance(layer, PITModule) and hasattr(layer, 'following_bn_args'):
                     layer.following_bn_args = None  # type: ignore
 
-        mod, _, _ = convert(self.seed, self._input_example, 'export')
+        with self._preserve_state():
+            mod, _, _ = convert(self.seed, self._input_example, 'export')
 
         return mod
 
